@@ -1443,6 +1443,31 @@ func wrapInt(v int64, t types.Type) int64 {
 }
 
 func (in *Interp) binop(op token.Token, a, b Value, opT types.Type, resT types.Type) Value {
+	// struct comparison: field by field, so that opaque fields become separate atoms
+	if sa, ok := a.(*StructV); ok && (op == token.EQL || op == token.NEQ) {
+		if sb, ok := b.(*StructV); ok && len(sa.F) == len(sb.F) {
+			eq := true
+			st, _ := sa.T.Underlying().(*types.Struct)
+			for i := range sa.F {
+				var ft types.Type
+				if st != nil && i < st.NumFields() {
+					ft = st.Field(i).Type()
+				}
+				fe, isB := in.binop(token.EQL, sa.F[i], sb.F[i], ft, types.Typ[types.Bool]).(bool)
+				if !isB {
+					in.Undecided("struct field comparison is not decidable")
+				}
+				if !fe {
+					eq = false
+					break
+				}
+			}
+			if op == token.EQL {
+				return eq
+			}
+			return !eq
+		}
+	}
 	// comparisons with nil
 	switch op {
 	case token.EQL, token.NEQ:
